@@ -50,16 +50,17 @@ type SolveResult struct {
 }
 
 type Solver struct {
-	WorkDir  string
-	CacheDir string
-	Timeout  int // seconds per solver call
-	Seed     int
-	NoCache  bool
-	mu       sync.Mutex
-	Wins     map[string]int
-	SolverS  map[string]float64
-	Calls    int
-	Hits     int
+	WorkDir     string
+	CacheDir    string
+	Timeout     int // seconds per solver call
+	Seed        int
+	NoCache     bool
+	RetryFactor int // >1: paths undecided within Timeout are retried once with Timeout*RetryFactor
+	mu          sync.Mutex
+	Wins        map[string]int
+	SolverS     map[string]float64
+	Calls       int
+	Hits        int
 }
 
 func NewSolver(work, cache string, timeout int, seed int) *Solver {
